@@ -95,9 +95,39 @@ EMPTY = N("EmptyStatement")
 SA_MSG = "m"
 
 
+# Pragma forms.  'hash' / 'op' are the two plain ones; the styled variants put
+# blanks where a verbatim copy could lose them.  For a #pragma line the Pragma
+# string is the text from the first non-blank after `pragma` up to (not
+# including) the newline, verbatim - '' if there is none; for _Pragma("...") it
+# is the string literal, verbatim.
+#   form -> (blanks written between `pragma` and the text, text template)
+PRAGMA_STYLES = {
+    "hash": (" ", "%s omp for"),
+    "hash:trail": (" ", "%s omp for  "),           # trailing blanks
+    "hash:tab": (" ", "%s unroll 4\t"),            # trailing tab
+    "hash:trail-mixed": (" ", "%s x \t "),
+    "hash:runs": (" ", "%s   omp \t  for"),        # internal runs of blanks
+    "hash:lead": ("  \t ", "%s omp for"),          # leading blanks are skipped
+    "hash:lead-tab": ("\t", "%s(2)"),
+    "hash:lead-trail": ("   ", "%s once \t"),
+    "hash:blank": ("  \t ", ""),                   # only blanks: empty string
+    "hash:none": ("", ""),                         # bare #pragma
+    "op": (None, "%s omp for"),
+    "op:lead": (None, "  %s omp for"),
+    "op:trail": (None, "%s omp for  "),
+    "op:both": (None, " \t%s  omp for \t"),
+}
+PLAIN_FORMS = ("hash", "op")
+EXTRA_FORMS = tuple(f for f in PRAGMA_STYLES if f not in PLAIN_FORMS)
+
+
+def is_hash(form):
+    return form.startswith("hash")
+
+
 def PRAGMA(form, text):
     # '#pragma text' keeps the raw text; _Pragma("text") keeps the string literal
-    return N("Pragma", text if form == "hash" else STR(text))
+    return N("Pragma", text if is_hash(form) else STR(text))
 
 
 # ---------------------------------------------------------------------------
@@ -311,7 +341,8 @@ def _label(t, c):
         return ("sassert", next(c) + 1)
     if k == "pragma":
         # several words, to see the text kept verbatim
-        return ("pragma", t[1], nx("p") + " omp for")
+        tmpl = PRAGMA_STYLES[t[1]][1]
+        return ("pragma", t[1], tmpl % nx("p") if tmpl else "")
     if k == "pp":
         ps = tuple(_label(p, c) for p in t[1])
         return ("pp", ps, _label(t[2], c))
@@ -455,8 +486,8 @@ def _join(toks):
 
 
 def _rp(p, out):
-    if p[1] == "hash":
-        out.append("#pragma " + p[2])
+    if is_hash(p[1]):
+        out.append("#pragma" + PRAGMA_STYLES[p[1]][0] + p[2])
     else:
         out.extend(["_Pragma", "(", '"%s"' % p[2], ")"])
 
